@@ -747,12 +747,35 @@ pub fn with_short_feature(rng: &mut Rng, mut sys: System) -> System {
     new_vals.extend([px, py]);
     cons.push(Constraint::Fixed(base, px));
     cons.push(Constraint::Fixed(base + 1, py));
-    if rng.chance(1, 2) {
+    let variant = rng.below(3);
+    if variant == 0 {
         let t = ang(rng);
         let q = DatumPoint::new_xy(base + 2, base + 3);
         new_vals.extend([px + d * t.cos(), py + d * t.sin()]);
         cons.push(Constraint::Distance(p, q, d));
         cons.push(Constraint::Fixed(base + 2, px + d * t.cos()));
+    } else if variant == 1 {
+        // a short segment p-q at an explicit angle to a long, pinned reference segment a-b: q is
+        // determined by its distance from p and the angle (millimetre features in a metre sketch)
+        let t = ang(rng);
+        let q = DatumPoint::new_xy(base + 2, base + 3);
+        let (ax, ay) = (px + sys.scale * (0.5 + rng.unit()), py + sys.scale * rng.sym());
+        let tr = rng.unit() * 2.0 * PI;
+        let len = sys.scale * (0.5 + rng.unit());
+        let (bx, by) = (ax + len * tr.cos(), ay + len * tr.sin());
+        let a = DatumPoint::new_xy(base + 4, base + 5);
+        let b = DatumPoint::new_xy(base + 6, base + 7);
+        new_vals.extend([px + d * t.cos(), py + d * t.sin(), ax, ay, bx, by]);
+        // directed angle from a->b to p->q
+        let mut th = t - tr;
+        while th > PI { th -= 2.0 * PI; }
+        while th <= -PI { th += 2.0 * PI; }
+        let angle = if rng.chance(1, 2) { Angle::from_radians(th) } else { Angle::from_degrees(th.to_degrees()) };
+        cons.push(Constraint::Distance(p, q, d));
+        cons.push(Constraint::LinesAtAngle(DatumLineSegment::new(a, b), DatumLineSegment::new(p, q), AngleKind::Other(angle)));
+        for (k, v) in [(4u32, ax), (5, ay), (6, bx), (7, by)] {
+            cons.push(Constraint::Fixed(base + k, v));
+        }
     } else {
         let (t0, t1) = (ang(rng), ang(rng));
         let start = DatumPoint::new_xy(base + 2, base + 3);
@@ -767,7 +790,8 @@ pub fn with_short_feature(rng: &mut Rng, mut sys: System) -> System {
         // (off by up to 30% of the feature's size, never more than 0.9% of the sketch scale: the error
         // is then above the solver's own "satisfied" threshold of 1e-4 for most features)
         let amp = (0.3 * d).min(0.009 * sys.scale);
-        let off = if k < 2 { 0.0 } else { amp * (0.4 + 0.6 * rng.unit()) * if rng.chance(1, 2) { 1.0 } else { -1.0 } };
+        let pinned_ref = variant == 1 && k >= 4;
+        let off = if k < 2 || pinned_ref { 0.0 } else { amp * (0.4 + 0.6 * rng.unit()) * if rng.chance(1, 2) { 1.0 } else { -1.0 } };
         sys.guesses.push((base + k as u32, v + off));
         xs.push(*v);
     }
